@@ -202,8 +202,11 @@ def gen_case(rng, tier, index):
     cls = rng.choice(CLASSES)
     diti = rng.random() < 0.3
     mode = rng.choice(["save", "save", "save_twice", "with", "with", "with_exc", "with_exc", "with_preloaded",
-                       "with_then_save", "badname_save", "badname_with"])
+                       "with_then_save", "badname_save", "badname_with", "with_twice", "save_inside_block"])
     n = rng.choice([0, 1, 1, 2, 3, 5, 8, 12, 20, 40, 100 if rng.random() < 0.3 else 30])
+    if rng.random() < 0.03 and mode in ("save", "with", "with_exc", "save_twice"):
+        # long worklists (block / buffer boundaries of a chunked writer): 1000..5000 records
+        n = rng.choice([999, 1000, 1001, 1024, 1500, 2048, 2500, 4097, 5000])
     pre = rng.choice(["absent", "longer", "longer", "shorter", "shorter", "same"])
     if n == 0 and pre == "shorter":
         pre = "longer"
@@ -219,6 +222,11 @@ def gen_case(rng, tier, index):
         case["ops_pre"] = _gen_ops(rng, cls, diti, rng.choice([1, 2, 5, 50]))
     if mode == "with_exc":
         case["exc_kind"] = rng.choice(["custom", "custom", "api"])
+    if mode == "with_twice":
+        case["second"] = rng.choice(["same_count", "same_count", "other_count", "identical"])
+        case["between"] = rng.choice(["nothing", "nothing", "foreign_longer", "deleted"])
+    if mode == "save_inside_block":
+        case["then"] = rng.choice(["replace_last", "replace_last", "append", "nothing"])
     return case
 
 
@@ -471,6 +479,10 @@ def _run(ctx, case, base, att):
                 _judge_file(ctx, case, base, path, records2, _expected(records), ev, "second_save")
         return
 
+    if mode in ("with_twice", "save_inside_block"):
+        _run_reuse(ctx, case, base, path, att)
+        return
+
     # ---- with-block modes ------------------------------------------------------------------
     keys = ("ops",)
     preview = _preview(ctx, case, keys)
@@ -540,6 +552,61 @@ def _run(ctx, case, base, att):
             if os.path.isfile(other):
                 with open(other, "rb") as f:
                     ctx.check("auto_save_equals_explicit_save", f.read() == auto, lambda: {"records": records[:50]})
+
+
+def _run_reuse(ctx, case, base, path, att):
+    """The same worklist object (with a file path) used twice / saved explicitly inside its block."""
+    mode = case["mode"]
+    preview = _preview(ctx, case)
+    had_pre, pre = _write_pre(case, path, preview)
+    _count_pre(ctx, case, had_pre, pre, preview)
+    b = _Bench(case, filepath=_arg(case, path))
+    ctx.case(case, True)
+    if mode == "with_twice":
+        att.fs_events.clear()
+        with b.wl:
+            _fill(ctx, b, case["ops"])
+            rec1 = list(b.wl)
+        ev = _events(att)
+        _judge_file(ctx, case, base, path, rec1, pre, ev, "first_block")
+        prev = _expected(rec1)
+        if case["between"] == "foreign_longer":
+            prev = prev + b"\r\nC;foreign content written by somebody else" * 3
+            with open(path, "wb") as f:
+                f.write(prev)
+        elif case["between"] == "deleted":
+            if os.path.exists(path):
+                os.remove(path)
+            prev = None
+        att.fs_events.clear()
+        with b.wl:
+            n_at_entry = len(b.wl)
+            if case["second"] == "identical":
+                _fill(ctx, b, case["ops"])
+            else:
+                k = len(rec1) if case["second"] == "same_count" else len(rec1) + 2
+                for i in range(k):
+                    b.wl.comment(f"second run {i}")
+            rec2 = list(b.wl)
+        ev = _events(att)
+        ctx.check("enter_starts_empty", n_at_entry == 0, lambda: {"len_at_entry": n_at_entry, "mode": mode})
+        ctx.count("second_block:" + case["second"] + ":" + case["between"])
+        _judge_file(ctx, case, base, path, rec2, prev, ev, "second_block_same_object")
+        _judge_str(ctx, b.wl, rec2)
+        return
+    # save_inside_block
+    att.fs_events.clear()
+    with b.wl:
+        _fill(ctx, b, case["ops"])
+        b.wl.save(_arg(case, path))
+        if case["then"] == "replace_last" and len(b.wl):
+            b.wl[-1] = "C;replaced after the explicit save"
+        elif case["then"] == "append" or (case["then"] == "replace_last" and not len(b.wl)):
+            b.wl.comment("added after the explicit save")
+        rec = list(b.wl)
+    ev = _events(att)
+    ctx.count("explicit_save_inside_block:" + case["then"])
+    _judge_file(ctx, case, base, path, rec, pre, ev, "exit_after_explicit_save")
 
 
 def _count_pre(ctx, case, had_pre, pre, records):
